@@ -129,8 +129,9 @@ class Suite:
         except Exception as e:
             ok, clause, detail = False, "oracle", f"contract evaluation raised {e!r}"
         if not ok:
+            elided = any(("more runs ..." in d or "more items]" in d or " characters" in d) for d in desc.values())
             self.fail(f"{contract.prop}.{contract.qualname}.{clause}", dict(function=contract.key, **desc), detail,
-                      replay={"kind": "contract", "contract": contract.key, "args": desc})
+                      replay=None if elided else {"kind": "contract", "contract": contract.key, "args": desc})
             if clause == "frame":
                 # an operand was modified in place: the values shared by the following cases of this suite can no longer be trusted
                 # (and may keep growing from case to case) - the suite has its verdict and stops here
